@@ -437,6 +437,46 @@ def r6_7(ctx):
     ctx.check(len(pushes) == 1, "one-push", e.where(), "end_testcase pushes exactly one TestCase")
 
 
+def r6_9(ctx):
+    """closing-fence predicate: a block is closed by any line that *starts with* the opener's backticks
+    (a longer closing fence closes too); an equality / trimmed-equality test rejects longer fences"""
+    prog = ctx.prog
+    f = prog.fn("<MarkdownIterator<'_> as Iterator>::next")
+    o = Origins(f)
+    srcs, helpers = source_calls(prog, f)
+    src_blocks = {x[0] for x in srcs}
+
+    def has_read(tree):
+        return any(n.kind == "call" and n.at is not None and n.at[0] in src_blocks and n.owner is f for n in tree.walk())
+
+    def is_fence(tree):
+        # component 0 of the Some payload of extract_code_block_start(..)
+        for n in tree.walk():
+            if n.kind == "field" and n.a == "0" and n.kids and n.kids[0].kind == "field" and n.kids[0].a == "0" and n.kids[0].kids and n.kids[0].kids[0].kind == "variant" \
+                    and n.kids[0].kids[0].kids and peel(n.kids[0].kids[0].kids[0]).kind == "call" and peel(n.kids[0].kids[0].kids[0]).a.endswith("extract_code_block_start"):
+                return True
+        return False
+    n = 0
+    for sb, st in switches(f):
+        be = bool_edges(f, sb)
+        if be is None:
+            continue
+        tree = cond_tree(f, sb, o)
+        while tree.kind == "un" and tree.a == "Not":
+            tree = tree.kids[0]
+        if tree.kind != "call" or not has_read(tree) or not is_fence(tree):
+            continue
+        n += 1
+        m = method_name(tree.a)
+        good = m == "str::starts_with" and has_read(tree.kids[0]) and is_fence(tree.kids[1]) and not [c for c in (method_name(x) for x in tree.kids[0].call_names()) if c.startswith("str::trim")]
+        ctx.check(good, "closing-fence#%d" % n, f.loc(sb),
+                  "a code block ends at the first line that starts with the opening fence (longer closing fences close it too)",
+                  "the closing-fence test is `%s`: a line of *more* backticks than the opener no longer closes the block, so the block swallows the following "
+                  "tests up to the next exactly-equal fence or the end of the document" % tree.show()[:100])
+    ctx.check(n >= 2, "closing-fence-sites", f.where(), "%d closing-fence tests found (verbatim block and test block)" % n,
+              "only %d closing-fence tests found in MarkdownIterator::next (2 confirmed by reading)" % n)
+
+
 def r6_8(ctx):
     f = ctx.prog.fn("read_file")
     o = Origins(f)
@@ -458,4 +498,5 @@ def run(ctx):
     ctx.run_rule("R6.4", "every `x[x.len()-k]` in parsers/generators/renderers/diff/expectation is dominated by a non-emptiness guard [E-PATH]", r6_4, floor=1)
     ctx.run_rule("R6.5", "line counter pairing: exactly one line_index increment per consumed line; stored numbers are line_index-1 [E-STATE by segment enumeration]", r6_5, floor=3)
     ctx.run_rule("R6.7", "parse feeds every code line to add_testcase_body; end_testcase builds the TestCase from the parser state [E-FLOW]", r6_7, floor=7)
+    ctx.run_rule("R6.9", "closing-fence predicate is a prefix test against the opener's fence (equality would reject longer closing fences) [E-TABLE of accepted forms]", r6_9, floor=3)
     ctx.run_rule("R6.8", "read_file normalises CRLF through replace_crlf before parsing [E-FLOW]", r6_8, floor=1)
